@@ -89,6 +89,13 @@ def configs(tier, seed):
         out.append(dict(dim=2, wave='db2', mode=mode, J=2, H=8, W=8, dir='inv', sub=[1, 0, 1], C=3))
         out.append(dict(dim=2, wave='db2', mode=mode, J=2, H=6, W=8, dir='fwd', sub=None, C=2))
         out.append(dict(dim=1, wave='db2', mode=mode, J=2, N=12, dir='inv', sub=[1, 0, 1], C=2))
+    # the same module is called on other data before the backward pass / the graph is back-propagated twice
+    for extra in (dict(reuse=True), dict(twice=True), dict(reuse=True, twice=True)):
+        for mode in ('zero', 'periodization'):
+            out.append(dict(dim=1, wave='db2', mode=mode, J=2, N=12, dir='fwd', sub=None, **extra))
+            out.append(dict(dim=2, wave='db2', mode=mode, J=2, H=8, W=8, dir='fwd', sub=None, **extra))
+            out.append(dict(dim=1, wave='db2', mode=mode, J=2, N=12, dir='inv', sub=[1, 1, 1], **extra))
+            out.append(dict(dim=2, wave='db2', mode=mode, J=1, H=8, W=6, dir='inv', sub=[1, 1], **extra))
     # None levels in the inverse
     for mode in D.MODES:
         out.append(dict(dim=1, wave='db2', mode=mode, J=2, N=9, dir='inv', sub=[1, 0, 1], none=[1, 0]))
@@ -133,10 +140,23 @@ def _wave_arg(cfg, inverse):
 def _run(pw, cfg, leaves):
     """leaves: list of input tensors (fwd: [x]; inv: [yl, yh1.. (None allowed)]) -> list of output tensors"""
     kinds = ('fwd1', 'inv1') if cfg['dim'] == 1 else ('fwd2', 'inv2')
+    tt = D.torch_of(pw)
     if cfg['dir'] == 'fwd':
-        yl, yh = D.make_module(pw, kinds[0], dict(cfg, wave=_wave_arg(cfg, False)))(leaves[0])
+        m = D.make_module(pw, kinds[0], dict(cfg, wave=_wave_arg(cfg, False)))
+        yl, yh = m(leaves[0])
+        if cfg.get('reuse'):
+            # the same module transforms another signal (other size, two channels) before the first result is back-propagated
+            sh = (1, 2, cfg['N'] + 3) if cfg['dim'] == 1 else (1, 2, cfg['H'] + 3, cfg['W'] + 2)
+            m(tt.ones(*sh, dtype=leaves[0].dtype).requires_grad_(True))
         return [yl] + list(yh)
-    return [D.make_module(pw, kinds[1], dict(cfg, wave=_wave_arg(cfg, True)))((leaves[0], list(leaves[1:])))]
+    m = D.make_module(pw, kinds[1], dict(cfg, wave=_wave_arg(cfg, True)))
+    y = m((leaves[0], list(leaves[1:])))
+    if cfg.get('reuse'):
+        c2 = dict(cfg, **({'N': cfg['N'] + 4} if cfg['dim'] == 1 else {'H': cfg['H'] + 4, 'W': cfg['W'] + 2}))
+        sl, shs = D.pyramid_shapes(c2)
+        m((tt.ones(*((1, 2) + tuple(sl)), dtype=leaves[0].dtype).requires_grad_(True),
+           [tt.ones(*((1, 2) + tuple(s_)), dtype=leaves[0].dtype).requires_grad_(True) for s_ in shs]))
+    return [y]
 
 
 def _leaf_shapes(cfg):
